@@ -1,3 +1,4 @@
 pub mod grammar;
 pub mod pos;
 pub mod core;
+pub mod fold;
